@@ -5,7 +5,7 @@
 set -e
 props=$1; slug=$2; msg=$3; what=$4
 cd /verif
-/venv/bin/python tools/baseline_check.py | tail -1
+/venv/bin/python tools/baseline_check.py > .scratch/baseline_last.txt || { cat .scratch/baseline_last.txt; exit 1; }; tail -1 .scratch/baseline_last.txt
 git -C /repo add -A
 git -C /repo commit -qm "$msg"
 c=$(git -C /repo rev-parse --short HEAD)
